@@ -20,7 +20,7 @@ CHECKS['C13'] = dict(
     title='Support windows form the expected interval algebra',
     level='exploration',
     technique='bounded-exhaustive enumeration of windows, pairs, triples and index probes on the real Support class against a set model',
-    level_text='Every window, ordered pair and triple of windows on grids up to 6 (thorough 8) points and every probed index value is executed on the real class and compared with a std::set model; exhaustive within those bounds, nothing sampled.',
+    level_text='Every window, ordered pair and triple of windows on grids up to 6 (thorough 10) points and every probed index value is executed on the real class and compared with a std::set model; exhaustive within those bounds, nothing sampled.',
     level_note='Trusted: the set model in checks/c13_support.cpp, g++/libstdc++. Index values are probed at every threshold +-2 and at both ends of size_t, not all 2^64.',
     units=lambda tier: [unit('exact', 'checks/c13_support.cpp', 'exact'),
                         unit('chk', 'checks/c13_support.cpp', 'chk')],
@@ -29,7 +29,7 @@ CHECKS['C13'] = dict(
          '(0..n+2, 2^63-1..2^63+1, 2^64-1-k, values that wrap start+index); oracle = std::set model of contained grid points. '
          'A case is non-trivial when all its windows are non-empty; distinctness measured by hashing descriptors.',
     bounds=dict(quick='n = 2..6 points (22 windows, 484 pairs x 4 grid variants, 10648 triples at n=6)',
-                thorough='n = 2..8 points (37 windows, 50653 triples at n=8)'),
+                thorough='n = 2..10 points (56 windows, 175616 triples at n=10)'),
     guards=dict(classes=['same:intervalxinterval:' + r for r in ALLEN13] + ['copy:intervalxinterval:' + r for r in ALLEN13] +
                 ['same:emptyxinterval:n/a', 'same:pointxpoint:equal', 'same:pointxinterval:starts', 'moved:intervalxinterval:equal',
                  'setop:refused', 'setop:computed', 'eq:true', 'eq:false', 'front/back:throw', 'front/back:value',
@@ -78,12 +78,12 @@ CHECKS['C11'] = dict(
     title='Malformed input is rejected at the boundary with the library exception',
     level='exploration',
     technique='bounded-exhaustive enumeration of argument values of every validating entry point on the real code; accepted <=> valid by an independently written rule; refusals caught by exact exception type',
-    level_text='Every sequence up to length 4 (thorough 5) over {-inf,-1,-0.0,0.0,1,2,+inf,NaN} through all four Grid constructors (plus null pointer), every index pair incl. size_t extremes for Support, every coefficient count for Spline, every knot sequence up to length 5 over {0,1,2,NaN} x {no grid, matching, extra point, moved point} x orders 0..5 for the generator, every count pair for linearCombination, every size pair and every boundary array (node, derivative 0..order+2 at every position, orders 1..4) for interpolate with a bounds-checked stub solver.',
+    level_text='Every sequence up to length 4 (thorough 6) over {-inf,-1,-0.0,0.0,1,2,+inf,NaN} through all four Grid constructors (plus null pointer), every index pair incl. size_t extremes for Support, every coefficient count for Spline, every knot sequence up to length 5 over {0,1,2,NaN} x {no grid, matching, extra point, moved point} x orders 0..5 for the generator, every count pair for linearCombination, every size pair and every boundary array (node, derivative 0..order+2 at every position, orders 1..4) for interpolate with a bounds-checked stub solver.',
     level_note='Trusted: the validity rules written in checks/c11_validation.cpp from the property statement. Sequences longer than the bound are covered by A-shape only (the scans compare neighbours). Support(grid,k,k), k>0 may be accepted (as empty) or refused (DESIGN.md 5).',
     units=std_units('checks/c11_validation.cpp'),
     rule='cases = one argument tuple of one validating entry point. Non-trivial = the input is valid (the accepted side); invalid inputs are the other side of the equivalence and are all executed too.',
     bounds=dict(quick='grid sequences len<=4 (double) / <=5 (rational); generator knots len<=5; supports on n=2..4; interpolation orders 1..4',
-                thorough='grid sequences len<=5 (double); generator knots len<=6 (double) / <=7 (rational)'),
+                thorough='grid sequences len<=6 (double); generator knots len<=6 (double) / <=7 (rational)'),
     guards=dict(classes=[x + y for x in ['Grid', 'Support', 'Spline', 'Generator', 'generateBSplines', 'linearCombination', 'interpolate:sizes', 'interpolate:boundaries']
                          for y in [':valid', ':invalid']] + ['Support:either']),
     assumptions=[A_SHAPE],
@@ -101,7 +101,7 @@ CHECKS['C03'] = dict(
                         unit('hist', 'checks/c03_arith.cpp', 'exact', args=['--part', 'hist'])],
     rule='E1 cases = (grid, window pair, order pair, operation, coefficient-pattern pair) etc.; history cases = one transition of the BFS (history + next operation). Non-trivial = the operands (or the expected result of the transition) are non-zero functions.',
     bounds=dict(quick='2 grid families n=5; orders 0..2; lincomb k<=3 (every third triple); histories depth 4 (order-2 target) / 3 (order-1 target) on a 4-point grid, 24 operations',
-                thorough='4 grid families; orders 0..3 plus (4,0),(0,4); all lincomb triples; histories depth 6 (order 2) and 5 (order 1)'),
+                thorough='4 grid families n=5 plus one 6-point grid; orders 0..3 plus (4,0),(0,4); all lincomb triples; histories depth 6 (order 2) and 5 (order 1)'),
     guards=dict(classes=['add:intervalxinterval:' + r for r in ALLEN13] + ['mul:intervalxinterval:' + r for r in ALLEN13] +
                 ['iadd:intervalxinterval:before', 'isub:pointxinterval:during', 'add:emptyxinterval:n/a', 'scalar:a/c', 'scalar:c*a', 'self:a*a', 'self:a-=a', 'assign',
                  'lincomb:k1', 'lincomb:k2', 'lincomb:k3', 'history:+=src0', 'history:=move(src1)', 'history:-=src4', 'history:/=3'],
@@ -201,7 +201,7 @@ CHECKS['C12'] = dict(
     units=lambda tier: [unit('exact', 'checks/c12_interp.cpp', 'exact'), unit('exact-chk', 'checks/c12_interp.cpp', 'chk'),
                         unit('eigen', 'checks/c12_interp.cpp', 'exact', flags=['-DVF_EIGEN'])],
     rule='cases = (solver, order, abscissa set, whole/embedded, boundary set, right-hand side). Non-trivial = the problem is uniquely solvable (others are counted in skipped_not_uniquely_solvable).',
-    bounds=dict(quick='n=2..4 nodes, gaps {1,1/2,3} (exact) / {1,1/2,3,1/8} (Eigen), orders 1..4, all boundary sets', thorough='n=2..5, gaps {1,1/2,3,1/8}'),
+    bounds=dict(quick='n=2..4 nodes, gaps {1,1/2,3} (exact) / {1,1/2,3,1/8} (Eigen), orders 1..4, all boundary sets', thorough='n=2..5, gaps {1,1/2,3,1/8}; order 5 for n<=4'),
     guards=dict(classes=['solved:default:whole', 'solved:default:embedded', 'solved:explicit:whole', 'not-uniquely-solvable', 'solved:double', 'solved:long double'],
                 counters=['conditions_checked', 'skipped_not_uniquely_solvable']),
     assumptions=[A_SHAPE, 'the solution is linear in ordinates and boundary values, so unit right-hand sides decide all values (exact half)'],
@@ -279,10 +279,10 @@ def c09_units(tier):
     add('c02', 'checks/c02_eval.cpp')
     add('c03', 'checks/c03_arith.cpp')
     add('c04', 'checks/c04_primitive.cpp')
-    add('c06', 'checks/c06_bilinear.cpp')
+    add('c06', 'checks/c06_bilinear.cpp', args=['--tier', 'quick'])
     add('c07', 'checks/c07_linear.cpp')
     add('c08', 'checks/c08_grids.cpp')
-    add('c01', 'checks/c01_generator.cpp')
+    add('c01', 'checks/c01_generator.cpp', args=['--tier', 'quick'])   # the thorough generator space takes 2 CPU-hours natively
     add('c11', 'checks/c11_validation.cpp')
     add('c12', 'checks/c12_interp.cpp')
     add('c12-eigen', 'checks/c12_interp.cpp', flags=['-DVF_EIGEN'])
@@ -290,7 +290,7 @@ def c09_units(tier):
     add('c10-pool', 'checks/c10_pool.cpp', shards=1, args=['--prop', 'C10', '--levels', '5' if th else '4', '--levels2', '4'])
     add('c17-n2', 'checks/c17_quadrature.cpp', flags=['-DVF_N=2'])
     add('c17-n3-ld', 'checks/c17_quadrature.cpp', flags=['-DVF_N=3', '-DVF_LONG_DOUBLE'])
-    for u in c05_units(tier, 'san', 'C09', [('k1', 12), ('fixed', 2)] + ([('k2', 160)] if th else [])):
+    for u in c05_units(tier, 'san', 'C09', [('k1', 12), ('fixed', 2)] + ([('uu', 32), ('k2v', 64)] if th else [])):
         u['name'] = 'c05-' + u['name']
         us.append(u)
     # memcheck pass: the exact harnesses (no sanitizer) under valgrind, which sees reads of uninitialised storage of ANY
@@ -298,7 +298,7 @@ def c09_units(tier):
     VG = ['valgrind', '-q', '--error-exitcode=0', '--undef-value-errors=yes', '--track-origins=no', '--num-callers=12']
     for name, src, a in [('vg-c02', 'checks/c02_eval.cpp', []), ('vg-c04', 'checks/c04_primitive.cpp', []), ('vg-c03', 'checks/c03_arith.cpp', ['--part', 'e1']),
                          ('vg-c13', 'checks/c13_support.cpp', []), ('vg-c07', 'checks/c07_linear.cpp', [])] + ([('vg-c06', 'checks/c06_bilinear.cpp', []), ('vg-c01', 'checks/c01_generator.cpp', [])] if th else []):
-        v = unit(name, src, 'exact', args=a, flags=['-g', '-DVF_VALGRIND'])
+        v = unit(name, src, 'exact', args=a + ['--tier', 'quick'], flags=['-g', '-DVF_VALGRIND'])   # always the quick space: memcheck is 30-50x slower
         v['wrap'] = VG
         us.append(v)
     return us
@@ -316,13 +316,13 @@ CHECKS['C09'] = dict(
     level='exploration',
     engine='E1/E2/E3 under sanitizers',
     technique='the bounded-exhaustive input, program and history spaces of the other checks re-executed on the real code built with AddressSanitizer + UndefinedBehaviorSanitizer (no recovery) + libstdc++ debug mode (checked iterators and subscripts), and (five harnesses) under valgrind memcheck for reads of uninitialised storage of any type; plus an exhaustive sweep of the bounds-checked accessors over index values incl. the extremes of size_t',
-    level_text='Every case of the quick (thorough: thorough for the cheap ones, plus all two-node expression trees) spaces of C01-C08, C10-C13, C15, C17 runs once more under ASan+UBSan+_GLIBCXX_DEBUG; a sanitizer report, a debug-mode assertion, a signal, a division by zero or an out-of-range solver access is a violation and names the case in flight. Checked accessors (Grid::at, Support::at, absoluteFromRelative, relativeFromAbsolute, intervalIndexFromAbsolute) are swept over every window x every index in {0..n+2, 2^63-1..2^63+1, 2^64-1-k, values that wrap start+index}.',
+    level_text='Every case of the quick (thorough: thorough for the cheap ones, plus all two-node expression trees with a spline factor) spaces of C01-C08, C10-C13, C15, C17 runs once more under ASan+UBSan+_GLIBCXX_DEBUG; a sanitizer report, a debug-mode assertion, a signal, a division by zero or an out-of-range solver access is a violation and names the case in flight. Checked accessors (Grid::at, Support::at, absoluteFromRelative, relativeFromAbsolute, intervalIndexFromAbsolute) are swept over every window x every index in {0..n+2, 2^63-1..2^63+1, 2^64-1-k, values that wrap start+index}.',
     level_note='Trusted: the sanitizer runtimes of g++ 12, libstdc++ debug mode. Only executed paths are checked; MSan is not available (no instrumented libstdc++); reads of default-constructed scalars are seen by the poisoned exact scalar but reported under C19 only, because the archetype cannot tell a default-initialised T x; from the well-defined value-initialised T{}. Functional mismatches found by these harnesses belong to their own properties and are ignored here (counted in counters).',
     units=c09_units,
     viol_filter=c09_filter,
     deadline=dict(quick=900, thorough=2700),
     rule='cases are those of the listed harnesses (see their rules), executed in the sanitizer build; non-trivial as defined there.',
-    bounds=dict(quick='quick spaces of 14 harnesses incl. 214 expression trees and the pool search to depth 4', thorough='thorough spaces, 10302 expression trees, pool search to depth 5'),
+    bounds=dict(quick='quick spaces of 14 harnesses incl. 214 expression trees and the pool search to depth 4', thorough='thorough spaces of the cheap harnesses (quick for the generator and bilinear forms), 246 + 1452 + 4300 expression trees (all two-node trees with a spline factor), pool search to depth 5'),
     guards=dict(classes=['at:notcontained', 'abs:notcontained', 'ivl:notcontained', 'rel:notcontained', 'tree:with-factor', 'factor:interval:ends-inside', 'A=move(A):value', 'x:shared-gridpoint',
                          'mul:intervalxinterval:overlaps', 'common:intervalxinterval:overlaps', 'Grid:invalid', 'solved:default:whole', 'valid:functions:interior-repeat']),
     assumptions=['a defect that neither crashes, nor trips a sanitizer or checked-STL assertion, nor reads an uninitialised scalar on an executed path is invisible to this check'],
@@ -487,13 +487,13 @@ CHECKS['C18'] = dict(
     level='model_checking',
     engine='E4 schedule explorer',
     technique='stateless model checking of the implementation: real pthreads serialised by a cooperative scheduler at every synchronisation point (atomic operation, static-initialisation guard, thread start/exit), iterative preemption bounding 0,1,2 followed by unbounded depth-first search with state caching; happens-before (vector-clock) race detection over every load and store reported by compiler instrumentation (-fsanitize=thread, linked against an own runtime), allocation shadow, and bit-wise comparison of every thread\'s results with a sequential run on every explored schedule',
-    level_text='Programs: all 121 ordered pairs of 11 operations (evaluate; copy+destroy of spline, support and grid; a+b, a*b, a-b, predicates; operator application incl. spline factor; bilinear/linear forms; generateBSplines; isZero with its function-local static; destruction of thread-owned copies sharing the grid; support algebra; combination with a spline on an equal grid held in a distinct object; X<2>, X<4>, Dx<2>) on shared const objects, further pairs with a class-type scalar (guarded static initialisation), 3-thread and 2x2-operation programs (thorough: all 286 unordered triples and all 2x2-operation programs over the five operations that copy, destroy or lazily initialise). For each program every schedule with at most 2 preemptions is covered (bounds 0, 1, 2 run to completion); the unbounded state-cached search is then run under an execution cap and completes for the smaller programs (counters say for how many). With synchronisation confined to read-modify-write chains on reference counts, one preemption already places any two code segments of two threads concurrently, so every potential race between segments is examined within the bound. On every execution: no pair of conflicting accesses unordered by happens-before, no use after free / double free, schedule-independent set of live blocks, no deadlock, per-operation result digests identical to the operation run alone.',
+    level_text='Programs: all 144 ordered pairs of 12 operations (evaluate; copy+destroy of spline, support and grid; a+b, a*b, a-b, predicates; operator application incl. spline factor; bilinear/linear forms; generateBSplines; isZero with its function-local static; destruction of thread-owned copies sharing the grid; support algebra; combination with a spline on an equal grid held in a distinct object; X<2>, X<4>, Dx<2>; linearCombination, integrate<3>, product with an interval-free spline) on shared const objects, further pairs with a class-type scalar (guarded static initialisation), 3-thread and 2x2-operation programs (thorough: all 364 unordered triples and all 2x2-operation programs over the five operations that copy, destroy or lazily initialise). For each program every schedule with at most 2 preemptions is covered (bounds 0, 1, 2 run to completion); the unbounded state-cached search is then run under an execution cap and completes for the smaller programs (counters say for how many). With synchronisation confined to read-modify-write chains on reference counts, one preemption already places any two code segments of two threads concurrently, so every potential race between segments is examined within the bound. On every execution: no pair of conflicting accesses unordered by happens-before, no use after free / double free, schedule-independent set of live blocks, no deadlock, per-operation result digests identical to the operation run alone.',
     level_note='The harness TU is the real library code compiled with -fsanitize=thread; libstdc++ header code is instrumented too, libstdc++.so/libc internals are not (operator new/delete, memcpy/memmove/memset and the guard functions are interposed). Scheduler hand-offs are not happens-before edges. Sequentially consistent interleavings only; under _GLIBCXX_TSAN libstdc++ disables its double-word fast path in shared_ptr release, so that path is not covered. 2-3 threads, 1-2 operations each. A free-running pass of the same bodies under the real ThreadSanitizer runtime (unit tsan-free: all operation pairs, both scalar variants, repeated; thorough: all triples) is a secondary detector for code the instrumentation cannot see; it is not the deciding step.',
     units=c18_units,
     deadline=dict(quick=600, thorough=2700),
     rule='each evaluation is one complete (or state-cache-pruned) execution of a program under one schedule in a forked child; distinct_nontrivial = distinct orders in which the threads performed their synchronisation operations, summed over programs. counters: programs, executions, states, transitions, atomic/guard/plain access counts observed by the runtime.',
-    bounds=dict(quick='173 programs: 121 pairs + 25 class-scalar pairs + 17 triples + 10 2x2 programs; every schedule with <= 2 preemptions; unbounded search granted 6000 further executions per program',
-                thorough='all pairs, all 286 unordered triples, 576 2x2-operation programs; every schedule with <= 2 preemptions; unbounded search granted 20000 further executions per program'),
+    bounds=dict(quick='197 programs: 144 pairs + 25 class-scalar pairs + 18 triples + 10 2x2 programs; every schedule with <= 2 preemptions; unbounded search granted 6000 further executions per program',
+                thorough='all pairs, all 364 unordered triples, 576 2x2-operation programs; every schedule with <= 2 preemptions; unbounded search granted 20000 further executions per program'),
     guards=dict(func=c18_guard, counters=['programs', 'executions', 'states', 'transitions'], classes=['threads:2:ops:1:variant0', 'threads:3:ops:1:variant0', 'threads:2:ops:2:variant0', 'threads:2:ops:1:variant1']),
     mc_note='states = distinct abstract states at scheduling points (per-thread progress, values observed, vector clocks, contents and clocks of all synchronisation words); transitions = scheduling points executed beyond replayed prefixes; every trace is an execution of the implementation.',
     assumptions=['data-race freedom makes interleavings at synchronisation points sufficient; any data race is itself reported', 'sequential consistency'],
